@@ -20,7 +20,7 @@ import (
 // histOp is one operation of a deterministic single-pair history.
 type histOp struct {
 	Kind   string // step | grow | reorg | restart
-	N      int    // grow: blocks
+	N      int    // grow: blocks; restart: the source's new batch_size (0 = unchanged)
 	Depth  int    // reorg
 	NewLen int    // reorg
 }
@@ -31,6 +31,10 @@ func (h histOp) String() string {
 		return fmt.Sprintf("grow(%d)", h.N)
 	case "reorg":
 		return fmt.Sprintf("reorg(depth=%d,new=%d)", h.Depth, h.NewLen)
+	case "restart":
+		if h.N > 0 {
+			return fmt.Sprintf("restart(batch_size=%d)", h.N)
+		}
 	}
 	return h.Kind
 }
@@ -497,13 +501,18 @@ func (ps *pipeScenario) run(c *vk.Case, o runOpts) *pipeRun {
 		case "step":
 			run.Steps = append(run.Steps, *doStep())
 		case "restart":
+			if h.N > 0 {
+				n := h.N
+				env.Reconfigure(func(sp *scen.Spec) { sp.Sources[0].Batch = max(n, sp.Sources[0].Concurrency) })
+				c.Obs("restarts_with_new_batch_size", 1)
+			}
 			env.Crash()
 			if env.SetupErr != nil || len(env.Tasks) != 1 {
 				c.Violate(o.KP+"restart-failed", map[string]any{"error": fmt.Sprint(env.SetupErr)}, "restart failed: %v", env.SetupErr)
 				return run
 			}
 			task = env.Tasks[0]
-			run.Trace = append(run.Trace, "restart")
+			run.Trace = append(run.Trace, h.String())
 		default:
 			applyChainOp(chain, h)
 			run.Trace = append(run.Trace, h.String())
